@@ -19,6 +19,7 @@ from . import df_world as W
 LABELS = ("p", "q", "w", "u")
 PAD_MODES = ("constant", "wrap", "edge")
 OPS = [("neg", 3), ("pos", 1), ("abs", 2), ("add", 4), ("mul", 3), ("mulnum", 2), ("comp", 3), ("lshift", 2), ("diff", 3),
+       ("sub", 2), ("dot", 2), ("cross", 1), ("norm", 2), ("orientation", 1), ("integrate", 2), ("fromfield", 3), ("setsub", 2),
        ("setvalid", 5), ("mutatevalid", 4), ("updateconst", 2), ("setarray", 2),
        ("selplane", 3), ("selrange", 4), ("getsub", 3), ("getregion", 3), ("pad", 4), ("resample", 2),
        ("h5", 2), ("ovf", 1), ("vtk", 1), ("xarray", 2),
@@ -170,6 +171,35 @@ class Driver:
                 if op != "lshift" and (self._maxabs(f) > big or self._maxabs(g) > big):
                     continue
                 return self.call(op, x, y=y, dst=self.dst(x))
+            if op == "sub":
+                y = rnd.choice(F)
+                if self._maxabs(f) > 5e8 or self._maxabs(w.vars[y]) > 5e8:
+                    continue
+                return self.call(op, x, y=y, dst=self.dst(x))
+            if op in ("dot", "cross"):
+                Y = [v for v in F if w.vars[v].nvdim == f.nvdim]
+                y = rnd.choice(Y)
+                if self._maxabs(f) > 15000 or self._maxabs(w.vars[y]) > 15000:
+                    continue
+                return self.call(op, x, y=y, dst=self.dst(x))
+            if op in ("norm", "orientation"):
+                return self.call(op, x, dst=self.dst(x))
+            if op == "integrate":
+                if nd < 2:
+                    continue
+                return self.call(op, x, dst=self.dst(x), a={"d": rnd.randint(1, nd)})
+            if op == "fromfield":
+                Y = [v for v in F if v != x]
+                if not Y:
+                    continue
+                return self.call(op, x, y=rnd.choice(Y), dst=x, ip=True)
+            if op == "setsub":
+                a = [rnd.randint(0, n[d] - 1) for d in range(nd)]
+                b = [rnd.randint(a[d], n[d] - 1) for d in range(nd)]
+                if rnd.random() < 0.15:
+                    d = rnd.randrange(nd)
+                    b[d] = n[d]
+                return self.call(op, x, dst=x, tg="mesh", ip=True, a={"a": a, "b": b, "sh": rnd.random() < 0.25})
             if op == "mulnum":
                 if self._maxabs(f) > 1e8:
                     continue
